@@ -86,6 +86,26 @@ var RawObjects = []*Obj{
 	{S: "na" + Esc([]byte{0xef}) + "ve " + Esc([]byte{0xff, 0xfe}), N: -1, L: []string{Esc([]byte{0xc3}), "\uFFFD"}, In: &Obj{S: Esc([]byte{0xed, 0xa0, 0x80})}},
 }
 
+// PBObjects are the generated protobuf messages of the exhaustive part (see pb.go): for every message kind an empty /
+// minimal one and two populated ones - texts with the marker, JSON-like fragments, HTML characters and unicode, bytes
+// fields with arbitrary bytes, timestamps and durations with fractions, negative and extreme values, absent and present
+// optional sub-messages.
+var PBObjects = func() []*PB {
+	hard := []string{"a\x1bjson b: {\"q\":1} 100% <tag> & é日本 ", `re: \u003c \n \\ \" \`, "", "k:1", "\x1bjson", "type.googleapis.com/google.rpc.RetryInfo", "</script>\u2028"}
+	bin := []string{Esc([]byte{0, 1, 0xff, 0xfe, 0x80, '"', '\\', 0x1b, 'j', 's', 'o', 'n'}), "", "plain"}
+	nums := [][]int64{{1, 500000000}, {-3, -5}, {1700000000, 7, 253402300799, 999999999}, {0, 1}, {math.MinInt64, math.MaxInt64}, {1<<53 + 1, -1}, {0, 0}}
+	var out []*PB
+	for i, k := range PBKinds {
+		out = append(out, &PB{Kind: k})
+		p := &PB{Kind: k, N: nums[i%len(nums)], B: bin}
+		for j := range hard {
+			p.S = append(p.S, hard[(i+j)%len(hard)])
+		}
+		out = append(out, p, &PB{Kind: k, S: []string{"name", "must not be empty"}, N: nums[(i+2)%len(nums)], B: bin[:1]})
+	}
+	return out
+}()
+
 // Messages of the exhaustive code part.
 var Messages = []string{"", "ha ha", "file does not exist", "internal system error", "a: b: c", "100%d", "\x1b", "\x1bjso", "json",
 	`{"a":1}`, "rpc error: code = OK desc = ", "日本語 😀", "\x1bjso\x1bjso n"}
@@ -230,6 +250,36 @@ func TestC19Exhaustive(t *testing.T) {
 			}
 		})
 	}
+	// generated protobuf messages as objects and as extraction targets: every list up to depth 2 over (a plain style, a
+	// JSON-like style, an inner GRPCWrap, a Join with a side error) x coded classes x embedding level x PBObjects x (plain
+	// extraction into a fresh message + every kind of caller-owned target, a message of the same type among them)
+	protos := int64(0)
+	{
+		styles := []Wrap{Styles[1], Styles[3], {Kind: LGRPC}, Levels[4]}
+		intos := append([]string{""}, PBIntoKinds...)
+		enum.Lists(len(styles), 2, 0, 1, func(idx []int) {
+			wraps := make([]Wrap, len(idx))
+			for i, e := range idx {
+				wraps[i] = styles[e]
+			}
+			for ci, cls := range CodedClasses {
+				if !mine() {
+					continue
+				}
+				for emb := 0; emb <= len(wraps); emb++ {
+					for oi, o := range PBObjects {
+						for ii, into := range intos {
+							if (ci+oi+ii)%3 != 0 && len(wraps) == 2 {
+								continue // depth 2: a third of the (class, message, target) combinations per list
+							}
+							run(Case{Kind: "chain", Chain: Chain{Class: cls, Wraps: wraps, Embed: emb, PB: o, Into: into}})
+							protos++
+						}
+					}
+				}
+			}
+		})
+	}
 	if shard == 0 {
 		for code := uint32(0); code < NumCodes; code++ {
 			for _, m := range append(append([]string{}, Messages...), RawStyles[0].Pre, RawStyles[1].Post) {
@@ -244,6 +294,7 @@ func TestC19Exhaustive(t *testing.T) {
 		"chain_cases_this_shard": chains, "codes": NumCodes, "messages": len(Messages), "code_cases_this_shard": codesN,
 		"size_targets": SizeTargets, "pad_places": PadPlaces, "sized_chain_cases_this_shard": sized,
 		"raw_byte_styles": len(RawStyles), "raw_byte_objects": len(RawObjects), "extraction_target_kinds": IntoKinds, "owned_target_and_raw_byte_cases_this_shard": owned,
+		"proto_message_kinds": PBKinds, "proto_message_objects": len(PBObjects), "proto_message_target_kinds": PBIntoKinds, "proto_message_cases_this_shard": protos,
 		"batch_sizes": "2..8", "batch_cases_this_shard": batches, "twin_batch_cases_this_shard": twins, "shards": shards})
 }
 
@@ -478,6 +529,28 @@ func genObj(t *rapid.T, label string, nest int) *Obj {
 	return o
 }
 
+// genPB draws a generated message: kind, 0..5 texts (valid UTF-8; the marker may be among them), numbers (small, any
+// int64, plausible epoch seconds and nanos) and 0..2 byte strings of arbitrary bytes.
+func genPB(t *rapid.T) *PB {
+	p := &PB{Kind: rapid.SampledFrom(PBKinds).Draw(t, "pbKind")}
+	// half of the draws go to the kinds that are or hold well-known types with sub-messages
+	if rapid.Bool().Draw(t, "pbNested") {
+		p.Kind = rapid.SampledFrom([]string{"retryinfo", "record", "status", "timestamp", "duration", "struct", "any", "fieldmask"}).Draw(t, "pbKindNested")
+	}
+	for n := rapid.IntRange(0, 5).Draw(t, "pbTexts"); n > 0; n-- {
+		p.S = append(p.S, genObjText(t, "pbS"))
+	}
+	num := rapid.OneOf(rapid.Int64Range(-3, 3), rapid.Int64(), rapid.Int64Range(0, 999999999), rapid.Int64Range(1600000000, 1900000000),
+		rapid.SampledFrom([]int64{math.MinInt64, math.MaxInt64, 1 << 53, 1<<53 + 1, 253402300799, -62135596800, 315576000000, -315576000000, 999999999, -999999999}))
+	for n := rapid.IntRange(0, 4).Draw(t, "pbNums"); n > 0; n-- {
+		p.N = append(p.N, num.Draw(t, "pbN"))
+	}
+	for n := rapid.IntRange(0, 2).Draw(t, "pbBytes"); n > 0; n-- {
+		p.B = append(p.B, Esc(rapid.SliceOfN(rapid.Byte(), 0, 12).Draw(t, "pbB")))
+	}
+	return p
+}
+
 // genTarget draws a target length: nothing (most of the time), around a power of two, or log-uniform up to ~70 KB.
 func genTarget(t *rapid.T, big int) (int, string) {
 	target := 0
@@ -553,10 +626,19 @@ func genChain(t *rapid.T, big int) Chain {
 	}
 	if rapid.IntRange(0, 3).Draw(t, "embed?") > 0 {
 		c.Embed = rapid.IntRange(0, depth).Draw(t, "embedLevel")
-		c.Obj = genObj(t, "obj.", 2)
+		// one object in four is a generated protobuf message
+		if rapid.IntRange(0, 3).Draw(t, "proto") == 0 {
+			c.PB = genPB(t)
+		} else {
+			c.Obj = genObj(t, "obj.", 2)
+		}
 		// half of the chains with an object: the caller extracts into a target of its own and overwrites it afterwards
 		if rapid.Bool().Draw(t, "owned") {
-			c.Into = rapid.SampledFrom(IntoKinds).Draw(t, "into")
+			if c.PB != nil {
+				c.Into = rapid.SampledFrom(PBIntoKinds).Draw(t, "into")
+			} else {
+				c.Into = rapid.SampledFrom(IntoKinds).Draw(t, "into")
+			}
 		}
 	}
 	// one chain in ten is deep: one or two of its levels become runs of tens to thousands of identical levels (short
@@ -597,13 +679,16 @@ func genChain(t *rapid.T, big int) Chain {
 		}
 		return c
 	}
-	if big > 0 && c.Embed >= 0 && rapid.IntRange(0, 19).Draw(t, "objSize") == 0 {
+	if big > 0 && c.Embed >= 0 && c.PB == nil && rapid.IntRange(0, 19).Draw(t, "objSize") == 0 {
 		// the object's JSON text ends around a multiple of 512
 		c.ObjTarget = 512*rapid.IntRange(1, 16).Draw(t, "objBlocks") + rapid.IntRange(-8, 2).Draw(t, "objDelta")
 		c.Pad = rapid.SampledFrom([]string{"obj.s", "obj.l", "obj.x"}).Draw(t, "objPad")
 		return c
 	}
 	c.Target, c.Pad = genTarget(t, big)
+	if c.PB != nil && strings.HasPrefix(c.Pad, "obj.") {
+		c.Pad = "post:0" // a generated message has no padding place: the padding goes to a wrap text
+	}
 	return c
 }
 
@@ -616,7 +701,13 @@ func genCase(t *rapid.T) Case {
 		k := rapid.IntRange(2, 8).Draw(t, "batchSize")
 		for i := 0; i < k; i++ {
 			ch := genChain(t, 1)
-			if ch.Embed >= 0 {
+			if ch.PB != nil {
+				// distinct objects per error: the position in the batch goes into the message's numbers and texts
+				p := *ch.PB
+				p.N = append([]int64{p.n(0)&^15 | int64(i)}, p.N[min(1, len(p.N)):]...)
+				p.S = append([]string{fmt.Sprintf("%s#%d", p.s(0), i)}, p.S[min(1, len(p.S)):]...)
+				ch.PB = &p
+			} else if ch.Embed >= 0 {
 				// distinct objects per error: the position in the batch goes into the object
 				o := *ch.Obj
 				o.N = o.N&^15 | int64(i)
